@@ -127,8 +127,12 @@ def bundle_decisions_by_index(base_path, decisions):
             # At least patch/patch will have common_path on a particular item
             key = d.common_path[level]
             # Wrap decision diffs in patches so common_path points to list
+            # (except for actions that are defined relative to the key of
+            # the diff at common_path: moving the path would make e.g.
+            # 'clear' clear the whole list item instead of the value)
             prefix = d.common_path[level:]
-            d = push_patch_decision(d, prefix)
+            if d.action not in ("clear", "clear_all", "remove", "take_max"):
+                d = push_patch_decision(d, prefix)
         else:
             # Removerange or addrange will have common_path
             # on list and key only in the diff entries
